@@ -135,130 +135,155 @@ def run(chk, replay=None):
     exe = C.build_harness("c12_load", "asan", extra_flags=["-DVERIF_INC=" + K11.inc_hash()])
     tier_i = 0 if chk.tier == "quick" else 1
 
-    # ---- requests ------------------------------------------------------------------------
-    reqs = []      # (type, kind, tseed, hex, source)
-    ctx = {}       # type -> symbol-table context for the model
+    # ---- requests, one batch per type (bounded memory in the thorough tier) ----------------------
+    state = {"ndis": 0, "requests": 0}
+    batches = []       # lists of (type, kind, tseed, hex, source, ctx)
     if replay:
         r = json.load(open(replay))["replay"]
         t = r["line"].split()
-        reqs.append((t[1], "replay", int(t[2]), t[3], None, None))
+        batches.append([(t[1], "replay", int(t[2]), t[3], None, None)])
     else:
         cdir = os.path.join(C.ROOT, "corpus", "C12")
+        cb = []
         if os.path.isdir(cdir):
             for f in sorted(os.listdir(cdir)):
                 if f.endswith(".json"):
                     t = json.load(open(os.path.join(cdir, f)))["line"].split()
-                    reqs.append((t[1], "corpus", int(t[2]), t[3], None, None))
-        for typ in TYPES:
-            nobj, max_exh, n_tok = BUDGET[typ][tier_i]
-            rc, objs, se = K11.gen_objects(ser, chk.seed, nobj, typ)
-            for i, o in enumerate(objs):
-                if o["verdict"] != "ok" or o["hex"] == "-":
-                    continue      # only *valid* serializations are damaged (C11 reports the others)
-                data = bytes.fromhex(o["hex"])
-                chk.count("source_objects:" + typ)
-                ctx[typ] = o.get("ctx", "")
-                # models: no target, the second field selects the problem (symbol set) of the model
-                tsf = (lambda: o["tags"].get("prob", 0)) if typ == "lam" else (lambda: rng.next() % 1000003)
-                reqs.append((typ, "intact", tsf(), o["hex"], i, o.get("ctx", "")))
-                for kind, b in mutations(rng, data, max_exh, n_tok):
-                    reqs.append((typ, kind, tsf(), hexs(b), i, o.get("ctx", "")))
+                    cb.append((t[1], "corpus", int(t[2]), t[3], None, None))
+        if cb:
+            batches.append(cb)
+        batches += [typ for typ in TYPES]
 
-    symtab = {}
-    if any(c is None and t in K11.NEEDS_CTX for t, _, _, _, _, c in reqs):     # replay / corpus lines
-        _, o1, _ = K11.gen_objects(ser, 1, 1, "imep")
-        symtab = {t: (o1[0]["ctx"] if o1 else "") for t in K11.NEEDS_CTX}
-    lamtab = {}
-    if any(c is None and t == "lam" for t, _, _, _, _, c in reqs):
-        _, ol, _ = K11.gen_objects(ser, 1, 60, "lam")
-        lamtab = {o["tags"].get("prob"): o["ctx"] for o in ol}
+    CHUNK = 40000          # requests handled at a time (bounded memory: long streams x thousands of prefixes)
+
+    def requests_for(typ):
+        """yields lists of requests, about CHUNK at a time"""
+        reqs = []
+        nobj, max_exh, n_tok = BUDGET[typ][tier_i]
+        rc, objs, se = K11.gen_objects(ser, chk.seed, nobj, typ)
+        for i, o in enumerate(objs):
+            if o["verdict"] != "ok" or o["hex"] == "-":
+                continue      # only *valid* serializations are damaged (C11 reports the others)
+            data = bytes.fromhex(o["hex"])
+            chk.count("source_objects:" + typ)
+            # models: no target, the second field selects the problem (symbol set) of the model
+            tsf = (lambda: o["tags"].get("prob", 0)) if typ == "lam" else (lambda: rng.next() % 1000003)
+            reqs.append((typ, "intact", tsf(), o["hex"], i, o.get("ctx", "")))
+            for kind, b in mutations(rng, data, max_exh, n_tok):
+                reqs.append((typ, kind, tsf(), hexs(b), i, o.get("ctx", "")))
+            if len(reqs) >= CHUNK:
+                yield reqs
+                reqs = []
+        if reqs:
+            yield reqs
+
+    tabs = {}
 
     def ctx_of(req):
         t, _, ts, _, _, c = req
         if c is not None:
             return c
-        return lamtab.get(ts, "") if t == "lam" else symtab.get(t, "")
+        if t == "lam":
+            if "lam" not in tabs:
+                _, ol, _ = K11.gen_objects(ser, 1, 60, "lam")
+                tabs["lam"] = {o["tags"].get("prob"): o["ctx"] for o in ol}
+            return tabs["lam"].get(ts, "")
+        if t in K11.NEEDS_CTX:
+            if "sym" not in tabs:
+                _, o1, _ = K11.gen_objects(ser, 1, 1, "imep")
+                tabs["sym"] = o1[0]["ctx"] if o1 else ""
+            return tabs["sym"]
+        return ""
 
-    lines = [f"ld {t} {ts} {hx}" for t, _, ts, hx, _, _ in reqs]
-    shards = max(1, min(8, len(lines) // 4000))
-    chk.cov["requests"] = len(lines)
+    def process(reqs):
+        lines = [f"ld {t} {ts} {hx}" for t, _, ts, hx, _, _ in reqs]
+        state["requests"] += len(lines)
+        shards = max(1, min(8, len(lines) // 3000))
+        mlines = [(f"resave lam {r[3]} {ctx_of(r)}" if r[0] == "lam" else f"load {r[0]} {r[3]} {ctx_of(r)}")
+                  for r in reqs]
 
-    def cpp(idx):
-        sub = lines[idx::shards]
-        return C.run_lines(exe, sub, timeout=3000)
+        def cpp(idx):
+            return C.run_lines(exe, lines[idx::shards], timeout=3000)
 
-    def model(idx):
-        sub = [(f"resave lam {r[3]} {ctx_of(r)}" if r[0] == "lam" else f"load {r[0]} {r[3]} {ctx_of(r)}")
-               for r in reqs[idx::shards]]
-        return C.run_driver("c12_driver", sub) if drv_ok else None
+        def model(idx):
+            return C.run_driver("c12_driver", mlines[idx::shards]) if drv_ok else None
 
-    with cf.ThreadPoolExecutor(2 * shards) as ex:
-        fc = [ex.submit(cpp, i) for i in range(shards)]
-        fm = [ex.submit(model, i) for i in range(shards)]
-        rc_ = [f.result() for f in fc]
-        rm_ = [f.result() for f in fm]
-    cpp_ans = [None] * len(lines)
-    mod_ans = [None] * len(lines)
-    for i in range(shards):
-        a, deaths = rc_[i]
-        for j, v in enumerate(a):
-            cpp_ans[i + j * shards] = v
-        for j, rcode, se in deaths:
-            g = i + j * shards
-            cpp_ans[g] = "died " + se[-1200:]
-        if rm_[i] is not None:
-            for j, v in enumerate(rm_[i]):
-                mod_ans[i + j * shards] = v
+        with cf.ThreadPoolExecutor(2 * shards) as ex:
+            fc = [ex.submit(cpp, i) for i in range(shards)]
+            fm = [ex.submit(model, i) for i in range(shards)]
+            rc_ = [f.result() for f in fc]
+            rm_ = [f.result() for f in fm]
+        cpp_ans = [None] * len(lines)
+        mod_ans = [None] * len(lines)
+        for i in range(shards):
+            a, deaths = rc_[i]
+            for j, v in enumerate(a):
+                cpp_ans[i + j * shards] = v
+            for j, rcode, se in deaths:
+                cpp_ans[i + j * shards] = "died " + se[-1200:]
+            if rm_[i] is not None:
+                for j, v in enumerate(rm_[i]):
+                    mod_ans[i + j * shards] = v
+        compare(reqs, lines, cpp_ans, mod_ans)
 
-    ndis = 0
-    for g, (typ, kind, ts, hx, src, _c) in enumerate(reqs):
-        ca = cpp_ans[g] or "skipped"
-        chk.seen((typ, hx), nontrivial=True)
-        chk.count(f"{typ}:{kind}")
-        rep = {"line": lines[g], "mutation": kind, "bytes": bytes.fromhex(hx).decode("latin1")[:600] if hx != "-" else ""}
-        tags = {"type": typ, "mutation": kind}
-        if ca.startswith("died"):
-            chk.count("cpp:died")
-            chk.violation(f"{typ}::load on a damaged stream ({kind}) crashed / was stopped by the sanitizer: {ca[5:]}",
-                          rep, tags=dict(tags, outcome="died"))
-            continue
-        if ca == "skipped":
-            continue
-        c = ca.split()
-        verdict, same, after = c[0], c[1], " ".join(c[2:])
-        chk.count("cpp:" + verdict)
-        if verdict != "ok" and same != "same":
-            chk.violation(f"{typ}::load reported failure ({verdict}) on a damaged stream ({kind}) but the target "
-                          f"changed; target after = {after[:300]}", dict(rep, cpp=ca[:600]),
-                          tags=dict(tags, outcome="changed"))
-        if verdict.startswith("exc:") and verdict not in FAILISH:
-            chk.violation(f"{typ}::load let an exception escape ({verdict}) on a damaged stream ({kind})",
-                          dict(rep, cpp=ca[:600]), tags=dict(tags, outcome=verdict))
-        ma = mod_ans[g]
-        if verdict in ("exc:bad_alloc", "exc:length_error"):
-            # a damaged element count made the real code ask for more memory than the harness grants
-            # (64 MiB): a resource outcome the model has no notion of; only the own oracle applies
-            ma = None
-        if ma is not None:
-            m_ok = ma.startswith("ok ")
-            c_ok = verdict == "ok"
-            agree = (m_ok == c_ok)
-            if agree and m_ok:
-                # plain types: the loaded object; models: the bytes of the reloaded model saved again
-                agree = ma[3:].split(" | ")[0].strip() == after.strip()
-            if not agree:
-                ndis += 1
-                chk.count("disagree:" + typ)
-                if ndis <= 6:
-                    broken.append(f"model and code disagree on `{lines[g][:300]}` ({kind}): code `{ca[:200]}`, "
-                                  f"model `{ma[:200]}`")
-        if g % 5003 == 0:
-            chk.sample({"request": lines[g][:160], "mutation": kind, "code": ca[:120], "model": (ma or "")[:120]}, limit=10)
+    def compare(reqs, lines, cpp_ans, mod_ans):
+        for g, (typ, kind, ts, hx, src, _c) in enumerate(reqs):
+            ca = cpp_ans[g] or "skipped"
+            chk.seen((typ, hx), nontrivial=True)
+            chk.count(f"{typ}:{kind}")
+            rep = {"line": lines[g], "mutation": kind, "bytes": bytes.fromhex(hx).decode("latin1")[:600] if hx != "-" else ""}
+            tags = {"type": typ, "mutation": kind}
+            if ca.startswith("died"):
+                chk.count("cpp:died")
+                chk.violation(f"{typ}::load on a damaged stream ({kind}) crashed / was stopped by the sanitizer: {ca[5:]}",
+                              rep, tags=dict(tags, outcome="died"))
+                continue
+            if ca == "skipped":
+                continue
+            c = ca.split()
+            verdict, same, after = c[0], c[1], " ".join(c[2:])
+            chk.count("cpp:" + verdict)
+            if verdict != "ok" and same != "same":
+                chk.violation(f"{typ}::load reported failure ({verdict}) on a damaged stream ({kind}) but the target "
+                              f"changed; target after = {after[:300]}", dict(rep, cpp=ca[:600]),
+                              tags=dict(tags, outcome="changed"))
+            if verdict.startswith("exc:") and verdict not in FAILISH:
+                chk.violation(f"{typ}::load let an exception escape ({verdict}) on a damaged stream ({kind})",
+                              dict(rep, cpp=ca[:600]), tags=dict(tags, outcome=verdict))
+            ma = mod_ans[g]
+            if verdict in ("exc:bad_alloc", "exc:length_error"):
+                # a damaged element count made the real code ask for more memory than the harness grants
+                # (64 MiB): a resource outcome the model has no notion of; only the own oracle applies
+                ma = None
+            if ma is not None:
+                m_ok = ma.startswith("ok ")
+                c_ok = verdict == "ok"
+                agree = (m_ok == c_ok)
+                if agree and m_ok:
+                    # plain types: the loaded object; models: the bytes of the reloaded model saved again
+                    agree = ma[3:].split(" | ")[0].strip() == after.strip()
+                if not agree:
+                    state["ndis"] += 1
+                    chk.count("disagree:" + typ)
+                    if state["ndis"] <= 6:
+                        broken.append(f"model and code disagree on `{lines[g][:300]}` ({kind}): code `{ca[:200]}`, "
+                                      f"model `{ma[:200]}`")
+            if g % 5003 == 0:
+                chk.sample({"request": lines[g][:160], "mutation": kind, "code": ca[:120], "model": (ma or "")[:120]}, limit=10)
+
+    for bt in batches:
+        if isinstance(bt, str):
+            for chunk in requests_for(bt):
+                process(chunk)
+        else:
+            process(bt)
+    ndis = state["ndis"]
+    chk.cov["requests"] = state["requests"]
     chk.cov["model_vs_code_disagreements"] = ndis
 
     if broken and not [v for v in chk.violations if not v[2]]:
         for b in broken:
-            chk.violation(b, {"broken": b, "searched": f"{len(lines)} truncated/damaged streams fed to the real load "
+            chk.violation(b, {"broken": b, "searched": f"{state['requests']} truncated/damaged streams fed to the real load "
                               "functions under ASan with a before/after snapshot of the target: no failing input"},
                           no_input=True)
     elif broken:
